@@ -185,6 +185,17 @@ def r3(tree, prog, rep):
     rep.check("C13.R3", "SubchannelDemultiplex._expected is written only by the constructor", len(own) == 1 and not foreign, SUB, key="C13.R3:_expected-writers")
 
 
+def connect_order(tree, rep, rule):
+    cn = tree.func(SUB, "SubchannelDemultiplex", "_connect")
+    g = build(cn)
+    order = [g.call_nodes(lambda c: (dotted(c.func) or "").endswith(".buildProtocol")), g.call_nodes(lambda c: (dotted(c.func) or "").endswith("._set_protocol")),
+             g.call_nodes(lambda c: (dotted(c.func) or "").endswith(".makeConnection")), g.call_nodes(lambda c: (dotted(c.func) or "").endswith("._deliver_queued_data"))]
+    ok = all(len(x) == 1 for x in order) and all(not g.precedes(order[i], order[i + 1]) for i in range(3)) and all(g.must_pass(x) for x in order)
+    rep.check(rule, "_connect: buildProtocol, attach, connectionMade, then replay queued data - exactly once each", ok, site(cn, SUB), key="%s:_connect" % rule,
+              what="a subchannel that was opened (and written to / closed) before the listener registered replays its data and its close "
+                   "BEFORE connectionMade: the application sees the events out of the order they were issued")
+
+
 def r4_r5(tree, rep):
     go = tree.func(SUB, "SubchannelDemultiplex", "_got_open")
     g = build(go, split=True)
@@ -235,12 +246,7 @@ def r4_r5(tree, rep):
         st = g.nodes(lambda s: isinstance(s, ast.Assign) and any(isinstance(t, ast.Subscript) and is_self_attr(t.value, "_factories") for t in s.targets))
         ok = len(pops) == 1 and len(cn) == 1 and len(st) == 1 and not g.precedes(st, loops)
     rep.check("C13.R4", "register() records the factory, then connects the pending OPENs of that name oldest first", ok, site(rg, SUB), key="C13.R4:register")
-    cn = tree.func(SUB, "SubchannelDemultiplex", "_connect")
-    g = build(cn)
-    order = [g.call_nodes(lambda c: (dotted(c.func) or "").endswith(".buildProtocol")), g.call_nodes(lambda c: (dotted(c.func) or "").endswith("._set_protocol")),
-             g.call_nodes(lambda c: (dotted(c.func) or "").endswith(".makeConnection")), g.call_nodes(lambda c: (dotted(c.func) or "").endswith("._deliver_queued_data"))]
-    ok = all(len(x) == 1 for x in order) and all(not g.precedes(order[i], order[i + 1]) for i in range(3)) and all(g.must_pass(x) for x in order)
-    rep.check("C13.R4", "_connect: buildProtocol, attach, connectionMade, then replay queued data - exactly once each", ok, site(cn, SUB), key="C13.R4:_connect")
+    connect_order(tree, rep, "C13.R4")
     # R5 who may write _open_subchannels
     own, foreign = class_writers(tree, "Inbound", "_open_subchannels")
     allowed = {("__attrs_post_init__", "assign"), ("subchannel_local_open", "setitem"), ("handle_open", "setitem"), ("handle_open", "delitem"),
